@@ -1,1 +1,399 @@
-import GeoModel
+/-
+  Property C09: the algebra of the object-level predicates across kinds — Within is Contains
+  swapped; Feature transparency (as receiver always; as argument only for leaf receivers:
+  finding D16); SimplePoint behaves as Point; empty arguments; and the reduction of the
+  object-level laws (Contains ⇒ rectangle covers, Contains ⇒ Intersects, Intersects ⇒
+  rectangles meet, symmetry of Intersects) to the corresponding facts on pairs of geometry
+  leaves, by induction over collections and features.
+
+  All statements are about GeoModel.Object as written.
+-/
+import GeoProofs.Props.C10
+
+namespace Geo
+open Obj
+
+/-! ### Within is Contains with the roles swapped -/
+
+/-- definitional in the model; the tie to the Go double dispatch is a generated table checked
+    by the differential harness -/
+theorem within_is_contains_swapped (a b : Obj) : a.within b = b.contains a := rfl
+
+/-! ### a Feature is transparent as a receiver -/
+
+theorem feature_transparent (base : Obj) (ex : Option Extra) (x : Obj) :
+    (Obj.feature base ex).contains x = base.contains x ∧
+    (Obj.feature base ex).intersects x = base.intersects x ∧
+    x.within (Obj.feature base ex) = x.within base ∧
+    (Obj.feature base ex).empty = base.empty ∧
+    (Obj.feature base ex).rect = base.rect ∧
+    (Obj.feature base ex).valid = base.valid ∧
+    (Obj.feature base ex).numPoints = base.numPoints ∧
+    (∀ r, (Obj.feature base ex).withinRect r = base.withinRect r) ∧
+    (∀ q, (Obj.feature base ex).withinPoint q = base.withinPoint q) ∧
+    (∀ l, (Obj.feature base ex).withinLine l = base.withinLine l) ∧
+    (∀ p, (Obj.feature base ex).withinPoly p = base.withinPoly p) ∧
+    (∀ r, (Obj.feature base ex).intersectsRect r = base.intersectsRect r) ∧
+    (∀ q, (Obj.feature base ex).intersectsPoint q = base.intersectsPoint q) ∧
+    (∀ l, (Obj.feature base ex).intersectsLine l = base.intersectsLine l) ∧
+    (∀ p, (Obj.feature base ex).intersectsPoly p = base.intersectsPoly p) := by
+  refine ⟨by rw [Obj.contains], by rw [Obj.intersects], by rw [Obj.within, Obj.within, Obj.contains],
+    by rw [Obj.empty], by rw [Obj.rect], by rw [Obj.valid], by rw [Obj.numPoints],
+    fun r => by rw [Obj.withinRect], fun q => by rw [Obj.withinPoint], fun l => by rw [Obj.withinLine],
+    fun p => by rw [Obj.withinPoly], fun r => by rw [Obj.intersectsRect],
+    fun q => by rw [Obj.intersectsPoint], fun l => by rw [Obj.intersectsLine],
+    fun p => by rw [Obj.intersectsPoly]⟩
+
+/-- `Center` too: a Feature answers `Rect().Center()`, which for a Point base is the point -/
+theorem feature_center (base : Obj) (ex : Option Extra) : (Obj.feature base ex).center = base.center := by
+  have h : ∀ p : Pt, p.box.center = p := by
+    intro p
+    cases p with
+    | mk x y =>
+      simp only [Pt.box, Box.center, Pt.mk.injEq]
+      constructor <;> linarith
+  cases base <;> simp [Obj.center, Obj.rect, h]
+
+/-! ### a Feature as an ARGUMENT -/
+
+/-- transparent for every receiver that is not a collection (nor a feature of one) -/
+theorem feature_argument_transparent_leaf (a : Obj) (ha : a.isLeafDeep = true) (base : Obj)
+    (ex : Option Extra) :
+    a.contains (Obj.feature base ex) = a.contains base ∧
+    a.intersects (Obj.feature base ex) = a.intersects base := by
+  induction a using Obj.ind' with
+  | hatom a hat => exact ⟨atom_contains_feature hat base ex, atom_intersects_feature hat base ex⟩
+  | hfeat a e ih =>
+    rw [feature_contains, feature_contains, feature_intersects, feature_intersects]
+    exact ih (by simpa [Obj.isLeafDeep] using ha)
+  | hcoll k cs e idx ih => simp [Obj.isLeafDeep] at ha
+
+section d16
+private def p1 : Obj := .spoint ⟨⟨1, 1⟩, true, "1", "1"⟩
+private def p2 : Obj := .spoint ⟨⟨2, 2⟩, true, "2", "2"⟩
+/-- a GeometryCollection of two single-point children -/
+private def gc : Obj := .coll .geometryCollection [p1, p2] none false
+/-- the MultiPoint of the same two points -/
+private def mp : Obj := .coll .multiPoint [p1, p2] none false
+
+/-- Finding D16: for a collection receiver a Feature argument is NOT transparent when its base
+    is a collection: `ForEach` on a Feature yields the Feature itself, so the whole MultiPoint
+    must fit in ONE child, whereas the bare MultiPoint is matched point by point. -/
+theorem feature_argument_not_transparent_counterexample :
+    gc.contains mp = true ∧ gc.contains (Obj.feature mp none) = false ∧
+    (Obj.feature mp none).within gc = false ∧ mp.within gc = true := by
+  refine ⟨?_, ?_, ?_, ?_⟩ <;> simp only [gc, mp, p1, p2] <;> obj_eval
+end d16
+
+/-! ### SimplePoint behaves as Point (everything but the written JSON) -/
+
+/-- as a receiver, and the derived attributes -/
+theorem simplepoint_as_point_receiver (pos : Pos) (ex : Option Extra) (x : Obj) :
+    (Obj.spoint pos).contains x = (Obj.point pos ex).contains x ∧
+    (Obj.spoint pos).intersects x = (Obj.point pos ex).intersects x ∧
+    x.within (Obj.spoint pos) = x.within (Obj.point pos ex) ∧
+    (Obj.spoint pos).empty = (Obj.point pos ex).empty ∧
+    (Obj.spoint pos).rect = (Obj.point pos ex).rect ∧
+    (Obj.spoint pos).center = (Obj.point pos ex).center ∧
+    (Obj.spoint pos).valid = (Obj.point pos ex).valid ∧
+    (Obj.spoint pos).numPoints = (Obj.point pos ex).numPoints ∧
+    (∀ r, (Obj.spoint pos).withinRect r = (Obj.point pos ex).withinRect r) ∧
+    (∀ q, (Obj.spoint pos).withinPoint q = (Obj.point pos ex).withinPoint q) ∧
+    (∀ l, (Obj.spoint pos).withinLine l = (Obj.point pos ex).withinLine l) ∧
+    (∀ p, (Obj.spoint pos).withinPoly p = (Obj.point pos ex).withinPoly p) ∧
+    (∀ r, (Obj.spoint pos).intersectsRect r = (Obj.point pos ex).intersectsRect r) ∧
+    (∀ q, (Obj.spoint pos).intersectsPoint q = (Obj.point pos ex).intersectsPoint q) ∧
+    (∀ l, (Obj.spoint pos).intersectsLine l = (Obj.point pos ex).intersectsLine l) ∧
+    (∀ p, (Obj.spoint pos).intersectsPoly p = (Obj.point pos ex).intersectsPoly p) := by
+  refine ⟨by rw [Obj.contains, Obj.contains], by rw [Obj.intersects, Obj.intersects],
+    by rw [Obj.within, Obj.within, Obj.contains, Obj.contains],
+    by rw [Obj.empty, Obj.empty], by rw [Obj.rect, Obj.rect], by rw [Obj.center, Obj.center],
+    by rw [Obj.valid, Obj.valid], by rw [Obj.numPoints, Obj.numPoints],
+    fun r => by rw [Obj.withinRect, Obj.withinRect], fun q => by rw [Obj.withinPoint, Obj.withinPoint],
+    fun l => by rw [Obj.withinLine, Obj.withinLine], fun p => by rw [Obj.withinPoly, Obj.withinPoly],
+    fun r => by rw [Obj.intersectsRect, Obj.intersectsRect],
+    fun q => by rw [Obj.intersectsPoint, Obj.intersectsPoint],
+    fun l => by rw [Obj.intersectsLine, Obj.intersectsLine],
+    fun p => by rw [Obj.intersectsPoly, Obj.intersectsPoly]⟩
+
+/-- as an argument of any object (also deep inside collections and features) -/
+theorem simplepoint_as_point_argument (pos : Pos) (ex : Option Extra) (x : Obj) :
+    x.contains (Obj.spoint pos) = x.contains (Obj.point pos ex) ∧
+    x.intersects (Obj.spoint pos) = x.intersects (Obj.point pos ex) ∧
+    (Obj.spoint pos).within x = (Obj.point pos ex).within x := by
+  obtain ⟨_, _, _, he, hr, _, _, _, h1, h2, h3, h4, h5, h6, h7, h8⟩ :=
+    simplepoint_as_point_receiver pos ex x
+  have := atom_argument_congr (g1 := Obj.spoint pos) (g2 := Obj.point pos ex) rfl rfl
+    he hr h1 h2 h3 h4 h5 h6 h7 h8 x
+  exact ⟨this.1, this.2, this.1⟩
+
+/-- every observable of `SimplePoint` equals that of `Point` -/
+theorem simplepoint_as_point (pos : Pos) (ex : Option Extra) (x : Obj) :
+    ((Obj.spoint pos).contains x = (Obj.point pos ex).contains x ∧
+     (Obj.spoint pos).intersects x = (Obj.point pos ex).intersects x ∧
+     (Obj.spoint pos).within x = (Obj.point pos ex).within x) ∧
+    (x.contains (Obj.spoint pos) = x.contains (Obj.point pos ex) ∧
+     x.intersects (Obj.spoint pos) = x.intersects (Obj.point pos ex) ∧
+     x.within (Obj.spoint pos) = x.within (Obj.point pos ex)) ∧
+    ((Obj.spoint pos).empty = (Obj.point pos ex).empty ∧
+     (Obj.spoint pos).rect = (Obj.point pos ex).rect ∧
+     (Obj.spoint pos).center = (Obj.point pos ex).center ∧
+     (Obj.spoint pos).valid = (Obj.point pos ex).valid ∧
+     (Obj.spoint pos).numPoints = (Obj.point pos ex).numPoints) ∧
+    ((∀ r, (Obj.spoint pos).withinRect r = (Obj.point pos ex).withinRect r) ∧
+     (∀ q, (Obj.spoint pos).withinPoint q = (Obj.point pos ex).withinPoint q) ∧
+     (∀ l, (Obj.spoint pos).withinLine l = (Obj.point pos ex).withinLine l) ∧
+     (∀ p, (Obj.spoint pos).withinPoly p = (Obj.point pos ex).withinPoly p) ∧
+     (∀ r, (Obj.spoint pos).intersectsRect r = (Obj.point pos ex).intersectsRect r) ∧
+     (∀ q, (Obj.spoint pos).intersectsPoint q = (Obj.point pos ex).intersectsPoint q) ∧
+     (∀ l, (Obj.spoint pos).intersectsLine l = (Obj.point pos ex).intersectsLine l) ∧
+     (∀ p, (Obj.spoint pos).intersectsPoly p = (Obj.point pos ex).intersectsPoly p)) := by
+  obtain ⟨r1, r2, r3, r4, r5, r6, r7, r8, r9⟩ := simplepoint_as_point_receiver pos ex x
+  obtain ⟨a1, a2, a3⟩ := simplepoint_as_point_argument pos ex x
+  exact ⟨⟨r1, r2, a3⟩, ⟨a1, a2, r3⟩, ⟨r4, r5, r6, r7, r8⟩, r9⟩
+
+/-! ### empty arguments -/
+
+/-- an empty argument (equivalently: every leaf empty) is contained by NOTHING — collections
+    because `Contains` wants at least one non-empty part, leaves because each leaf predicate
+    starts with the emptiness test -/
+theorem contains_empty_false (a b : Obj) (hb : b.empty = true) : a.contains b = false :=
+  contains_of_empty_arg a b hb
+
+theorem empty_iff_all_leaves_empty (b : Obj) : b.empty = true ↔ ∀ g ∈ b.leaves, g.empty = true :=
+  empty_iff_leaves b
+
+/-- an empty collection contains nothing -/
+theorem contains_empty_receiver_false {k : CollKind} {cs : List Obj} {ex : Option Extra} {idx : Bool}
+    (x : Obj) (h : (Obj.coll k cs ex idx).empty = true) : (Obj.coll k cs ex idx).contains x = false := by
+  rw [Obj.contains, h]; rfl
+
+/-- an empty argument intersects no collection, LineString, Polygon, Rect or Circle (nor a
+    feature of these), and an empty collection intersects nothing -/
+theorem intersects_empty_false (a b : Obj) (ha : a.isPointDeep = false) (hb : b.empty = true) :
+    a.intersects b = false :=
+  intersects_of_empty_arg a b ha hb
+
+theorem intersects_empty_receiver_false {k : CollKind} {cs : List Obj} {ex : Option Extra} {idx : Bool}
+    (x : Obj) (h : (Obj.coll k cs ex idx).empty = true) : (Obj.coll k cs ex idx).intersects x = false := by
+  cases hi : (Obj.coll k cs ex idx).intersects x with
+  | false => rfl
+  | true =>
+    obtain ⟨c, hc, hce, _⟩ := (collR_intersects_iff x).1 hi
+    rw [Obj.empty, allEmpty_iff] at h
+    rw [h c hc] at hce; cases hce
+
+/-- For a Point receiver the question is handed to the leaf: `Intersects(empty line)` is the
+    segment search of `Line.ContainsPoint`, which visits nothing on an empty series without an
+    index; with an index the answer is whatever the index bytes say (constructed series are empty
+    ⇒ unindexed). -/
+theorem intersects_empty_false_point (pos : Pos) (ex : Option Extra) (b : Obj) :
+    (Obj.point pos ex).intersects b = b.intersectsPoint pos.p ∧
+    (∀ l poss e, l.empty = true → l.index = none →
+      (Obj.point pos ex).intersects (.lineString l poss e) = false) ∧
+    (∀ s holes rings e, s.empty = true → s.index = none →
+      (Obj.point pos ex).intersects (.polygon ⟨some (.ser s), holes⟩ rings e) = false) ∧
+    (∀ holes rings e, (Obj.point pos ex).intersects (.polygon ⟨none, holes⟩ rings e) = false) := by
+  refine ⟨by rw [Obj.intersects], ?_, ?_, ?_⟩
+  · intro l poss e h hi
+    rw [Obj.intersects, Obj.intersectsPoint]; exact Line.containsPoint_of_empty l _ h hi
+  · intro s holes rings e h hi
+    rw [Obj.intersects, Obj.intersectsPoint]
+    simp [Poly.containsPoint, ringContainsPoint_of_empty s _ true h hi]
+  · intro holes rings e
+    rw [Obj.intersects, Obj.intersectsPoint]; rfl
+
+/-! ### object-level laws reduced to the leaf level
+
+`hleaf` ranges over pairs of GEOMETRY LEAVES (Point, SimplePoint, LineString, Polygon, Rect:
+`Obj.isLeaf`); the conclusions hold for ALL objects (collections, features, nested, Circle —
+whose planar methods answer `false`). -/
+
+/-- Contains ⇒ the receiver's rectangle covers the argument's rectangle -/
+theorem contains_implies_rect_covers_partial
+    (hleaf : ∀ a b : Obj, a.isLeaf = true → b.isLeaf = true → a.contains b = true →
+      a.rect.containsBox b.rect = true) :
+    ∀ a b : Obj, a.contains b = true → a.rect.containsBox b.rect = true :=
+  contains_rect_covers_lift hleaf
+
+/-- Contains ⇒ Intersects -/
+theorem contains_implies_intersects_partial
+    (hleaf : ∀ a b : Obj, a.isLeaf = true → b.isLeaf = true → a.contains b = true →
+      a.intersects b = true) :
+    ∀ a b : Obj, a.contains b = true → a.intersects b = true :=
+  contains_intersects_lift hleaf
+
+/-- Intersects ⇒ the rectangles meet -/
+theorem intersects_implies_rects_meet_partial
+    (hleaf : ∀ a b : Obj, a.isLeaf = true → b.isLeaf = true → a.intersects b = true →
+      a.rect.intersects b.rect = true) :
+    ∀ a b : Obj, a.intersects b = true → a.rect.intersects b.rect = true :=
+  intersects_rects_meet_lift hleaf
+
+/-- an empty object neither intersects nor is intersected, given that for leaf pairs
+    (see `intersects_empty_false` for the receivers where no hypothesis is needed) -/
+theorem intersects_empty_false_partial
+    (hempty : ∀ a b : Obj, a.isLeaf = true → b.isLeaf = true → (a.empty = true ∨ b.empty = true) →
+      a.intersects b = false) :
+    ∀ a b : Obj, (a.empty = true ∨ b.empty = true) → a.intersects b = false :=
+  intersects_of_empty_lift hempty
+
+/-- Under the leaf-level laws the rectangle prefilters of `collection.Search` and the Feature
+    boundary are invisible to Intersects: it holds iff some geometry atom of `a` intersects some
+    geometry atom of `b` (`Obj.geoLeaves` descends through collections AND features). -/
+theorem intersects_iff_atoms
+    (hmeet : ∀ a b : Obj, a.isLeaf = true → b.isLeaf = true → a.intersects b = true →
+      a.rect.intersects b.rect = true)
+    (hempty : ∀ a b : Obj, a.isLeaf = true → b.isLeaf = true → (a.empty = true ∨ b.empty = true) →
+      a.intersects b = false) :
+    ∀ a b : Obj, a.intersects b = true ↔
+      ∃ la ∈ a.geoLeaves, ∃ lb ∈ b.geoLeaves, la.intersects lb = true :=
+  intersects_iff_geoLeaves hmeet hempty
+
+/-- hence, for Intersects (unlike Contains, D16) a Feature argument IS transparent for every receiver -/
+theorem feature_argument_transparent_intersects
+    (hmeet : ∀ a b : Obj, a.isLeaf = true → b.isLeaf = true → a.intersects b = true →
+      a.rect.intersects b.rect = true)
+    (hempty : ∀ a b : Obj, a.isLeaf = true → b.isLeaf = true → (a.empty = true ∨ b.empty = true) →
+      a.intersects b = false)
+    (a base : Obj) (ex : Option Extra) :
+    a.intersects (Obj.feature base ex) = a.intersects base := by
+  rw [Bool.eq_iff_iff, intersects_iff_geoLeaves hmeet hempty, intersects_iff_geoLeaves hmeet hempty,
+    Obj.geoLeaves]
+
+/-- Symmetry of Intersects on ALL objects (collection × feature-of-collection included, checked by
+    `#eval` on 242² small objects before proving) from symmetry on leaf pairs.  Besides leaf
+    symmetry the reduction uses the two other leaf-level laws, because the two directions apply
+    the rectangle / emptiness prefilters at different levels of the nesting. -/
+theorem intersects_symm_partial
+    (hmeet : ∀ a b : Obj, a.isLeaf = true → b.isLeaf = true → a.intersects b = true →
+      a.rect.intersects b.rect = true)
+    (hempty : ∀ a b : Obj, a.isLeaf = true → b.isLeaf = true → (a.empty = true ∨ b.empty = true) →
+      a.intersects b = false)
+    (hsym : ∀ a b : Obj, a.isLeaf = true → b.isLeaf = true → a.intersects b = b.intersects a) :
+    ∀ a b : Obj, a.intersects b = b.intersects a :=
+  intersects_symm_lift hmeet hempty hsym
+
+/-! ### the leaf-level facts themselves, for Point / SimplePoint / Rect receivers and arguments -/
+
+theorem leaf_contains_rect_covers_point_rect (a b : Obj) (ha : a.isPointOrRect = true)
+    (hb : b.isPointOrRect = true) (h : a.contains b = true) : a.rect.containsBox b.rect = true :=
+  pr_contains_rect_covers a b ha hb h
+
+theorem leaf_intersects_rects_meet_point_rect (a b : Obj) (ha : a.isPointOrRect = true)
+    (hb : b.isPointOrRect = true) (h : a.intersects b = true) : a.rect.intersects b.rect = true :=
+  pr_intersects_rects_meet a b ha hb h
+
+theorem leaf_intersects_symm_point_rect (a b : Obj) (ha : a.isPointOrRect = true)
+    (hb : b.isPointOrRect = true) : a.intersects b = b.intersects a :=
+  pr_intersects_symm a b ha hb
+
+/-- a Rect argument has to be well-formed (min ≤ max) here -/
+theorem leaf_contains_intersects_point_rect (a b : Obj) (ha : a.isPointOrRect = true)
+    (hb : b.isPointOrRect = true) (hwf : b.rect.min.x ≤ b.rect.max.x ∧ b.rect.min.y ≤ b.rect.max.y)
+    (h : a.contains b = true) : a.intersects b = true :=
+  pr_contains_intersects a b ha hb hwf h
+
+section malformed
+private def pz : Pos := ⟨⟨0, 0⟩, true, "0", "0"⟩
+private def big : Obj := .rectO ⟨⟨0, 0⟩, ⟨10, 10⟩⟩ pz pz
+/-- an inside-out rectangle (min > max) -/
+private def bad : Obj := .rectO ⟨⟨20, 20⟩, ⟨-5, -5⟩⟩ pz pz
+
+/-- without well-formedness `Rect.ContainsRect` does not imply `Rect.IntersectsRect` -/
+theorem leaf_contains_intersects_rect_counterexample :
+    big.contains bad = true ∧ big.intersects bad = false := by
+  constructor <;> simp only [big, bad, pz] <;> obj_eval
+end malformed
+
+/-! ### the laws, unconditionally, for objects made of points and rectangles
+
+The reductions above are not vacuous: for every object whose geometry atoms are Points,
+SimplePoints, Rects (and Circles, whose planar methods answer `false`) — under any nesting of
+collections and features — the four laws hold outright. -/
+
+theorem pr_not_empty (a : Obj) (ha : a.isPointOrRect = true) : a.empty = false := by
+  cases a <;> simp_all [Obj.isPointOrRect, Obj.empty]
+
+/-- every geometry leaf in `x` is a Point, SimplePoint or Rect -/
+def Obj.PointRectOnly (x : Obj) : Prop := Obj.AllLeaves (fun g => g.isPointOrRect = true) x
+
+/-- … and the Rects are well-formed (min ≤ max) -/
+def Obj.PointWFRectOnly (x : Obj) : Prop :=
+  Obj.AllLeaves (fun g => g.isPointOrRect = true ∧
+    g.rect.min.x ≤ g.rect.max.x ∧ g.rect.min.y ≤ g.rect.max.y) x
+
+theorem point_rect_contains_implies_rect_covers (a b : Obj) (ha : a.PointRectOnly) (hb : b.PointRectOnly)
+    (h : a.contains b = true) : a.rect.containsBox b.rect = true :=
+  contains_rect_covers_lift_on (C := fun g => g.isPointOrRect = true)
+    (fun a b _ _ ca cb => pr_contains_rect_covers a b ca cb) a b ha hb h
+
+theorem point_rect_intersects_implies_rects_meet (a b : Obj) (ha : a.PointRectOnly)
+    (hb : b.PointRectOnly) (h : a.intersects b = true) : a.rect.intersects b.rect = true :=
+  intersects_rects_meet_lift_on (C := fun g => g.isPointOrRect = true)
+    (fun a b _ _ ca cb => pr_intersects_rects_meet a b ca cb) a b ha hb h
+
+theorem point_rect_intersects_symm (a b : Obj) (ha : a.PointRectOnly) (hb : b.PointRectOnly) :
+    a.intersects b = b.intersects a :=
+  intersects_symm_lift_on (C := fun g => g.isPointOrRect = true)
+    (fun a b _ _ ca cb => pr_intersects_rects_meet a b ca cb)
+    (fun a b _ _ ca cb h => by
+      rcases h with h | h
+      · rw [pr_not_empty a ca] at h; cases h
+      · rw [pr_not_empty b cb] at h; cases h)
+    (fun a b _ _ ca cb => pr_intersects_symm a b ca cb) a b ha hb
+
+theorem point_rect_contains_implies_intersects (a b : Obj) (ha : a.PointWFRectOnly)
+    (hb : b.PointWFRectOnly) (h : a.contains b = true) : a.intersects b = true :=
+  contains_intersects_lift_on
+    (C := fun g => g.isPointOrRect = true ∧ g.rect.min.x ≤ g.rect.max.x ∧ g.rect.min.y ≤ g.rect.max.y)
+    (fun a b _ _ ca cb => pr_contains_intersects a b ca.1 cb.1 cb.2) a b ha hb h
+
+section examples
+private def e1 : Obj := .spoint ⟨⟨1, 1⟩, true, "1", "1"⟩
+private def e2 : Obj := .rectO ⟨⟨0, 0⟩, ⟨5, 5⟩⟩ ⟨⟨0, 0⟩, true, "0", "0"⟩ ⟨⟨5, 5⟩, true, "5", "5"⟩
+private def e3 : Obj := .coll .geometryCollection [e1, .feature (.coll .multiPoint [e1, e1] none true) none] none false
+
+example : e3.PointWFRectOnly := by
+  intro g hg _
+  simp only [e3, e1, Obj.geoLeaves, geoLeavesL, List.append_nil, List.cons_append, List.nil_append,
+    List.mem_cons, List.not_mem_nil, or_false, or_self] at hg
+  subst hg
+  exact ⟨rfl, le_refl _, le_refl _⟩
+example : e2.contains e3 = true := by simp only [e2, e3, e1]; obj_eval
+example : e3.intersects e2 = true := by simp only [e2, e3, e1]; obj_eval
+end examples
+
+end Geo
+
+#print axioms Geo.within_is_contains_swapped
+#print axioms Geo.feature_transparent
+#print axioms Geo.feature_center
+#print axioms Geo.feature_argument_transparent_leaf
+#print axioms Geo.feature_argument_not_transparent_counterexample
+#print axioms Geo.simplepoint_as_point_receiver
+#print axioms Geo.simplepoint_as_point_argument
+#print axioms Geo.simplepoint_as_point
+#print axioms Geo.contains_empty_false
+#print axioms Geo.empty_iff_all_leaves_empty
+#print axioms Geo.contains_empty_receiver_false
+#print axioms Geo.intersects_empty_false
+#print axioms Geo.intersects_empty_receiver_false
+#print axioms Geo.intersects_empty_false_point
+#print axioms Geo.contains_implies_rect_covers_partial
+#print axioms Geo.contains_implies_intersects_partial
+#print axioms Geo.intersects_implies_rects_meet_partial
+#print axioms Geo.intersects_empty_false_partial
+#print axioms Geo.intersects_iff_atoms
+#print axioms Geo.feature_argument_transparent_intersects
+#print axioms Geo.intersects_symm_partial
+#print axioms Geo.leaf_contains_rect_covers_point_rect
+#print axioms Geo.leaf_intersects_rects_meet_point_rect
+#print axioms Geo.leaf_intersects_symm_point_rect
+#print axioms Geo.leaf_contains_intersects_point_rect
+#print axioms Geo.leaf_contains_intersects_rect_counterexample
+#print axioms Geo.pr_not_empty
+#print axioms Geo.point_rect_contains_implies_rect_covers
+#print axioms Geo.point_rect_intersects_implies_rects_meet
+#print axioms Geo.point_rect_intersects_symm
+#print axioms Geo.point_rect_contains_implies_intersects
